@@ -1,5 +1,5 @@
 (** * C14 — assets of a multi-asset market are independent books sharing one clock *)
-From Bourse Require Import Model.Types Model.Book Model.Obs Model.Rng Model.Env Proofs.EnvProps.
+From Bourse Require Import Model.Types Model.Book Model.Obs Model.Rng Model.Env Spec.RefBook Proofs.EnvProps Proofs.Refine Proofs.Volumes Proofs.MarketInv.
 
 (** A direct operation on asset [a] is the stand-alone book step on the a-th
     book and leaves every other book *equal*. *)
@@ -38,8 +38,25 @@ Proof.
   destruct H as (_ & _ & _ & _ & _ & Ho & b & ent & Hb & _ & _ & Hid). split; eauto.
 Qed.
 
+
+(** Every asset's book keeps the stand-alone book's invariant through every market
+    and environment operation, so everything proved of a stand-alone book holds
+    asset by asset; in particular every per-asset market-data view is the value
+    recomputed from that asset's own order list. *)
+Theorem c14_each_asset_keeps_book_invariant : forall L e g o e' g' x,
+  MInv (en_market e) -> Forall mev_u32 (en_queue e) -> eop_u32 o -> menv_apply L e g o = Ok (e', g', x) ->
+  MInv (en_market e') /\ Forall mev_u32 (en_queue e').
+Proof. exact menv_apply_inv. Qed.
+
+Theorem c14_per_asset_views_recomputed : forall L m a b,
+  MInv m -> nth_error m a = Some b ->
+  observe L b = ref_observe_tbl L (b_t b) (b_tick b) (b_tvol b) (map e_order (b_orders b)) (b_trades b).
+Proof. exact market_views_recomputed. Qed.
+
 Check c14_direct_op_local.
 Print Assumptions c14_direct_op_local.
 Print Assumptions c14_event_local.
 Print Assumptions c14_clock_shared.
 Print Assumptions c14_ids_per_asset.
+Print Assumptions c14_each_asset_keeps_book_invariant.
+Print Assumptions c14_per_asset_views_recomputed.
